@@ -133,7 +133,48 @@ def generators(tier, seed):
 
 
 def plan(tier, seed):
-    return [dict(key="gen/" + g["label"], gen=g["label"], seed=seed, tier=tier, cost=5) for g in generators(tier, seed)]
+    return [dict(key="gen/" + g["label"], gen=g["label"], seed=seed, tier=tier, cost=5) for g in generators(tier, seed)] + [dict(key="scaling", gen="scaling", seed=seed, tier=tier, cost=3)]
+
+
+def run_scaling(case):
+    """generators in other length units: the mesh generated with all lengths multiplied by s is s times the mesh generated
+    with unit lengths (same cells, no points merged or split), s in {1e-9, 1e-6, 1e-3, 1e3, 1e7}"""
+    import felupe as fem
+
+    key = case["key"]
+    viol, nontrivial = [], []
+    ntrans = 0
+    gens = {
+        "Circle(n=3)": lambda s: fem.Circle(radius=1.3 * s, centerpoint=[0.0, 0.0], n=3),
+        "Circle(n=6,sections=[0,90,180])": lambda s: fem.Circle(radius=0.7 * s, centerpoint=[0.0, 0.0], n=6, sections=[0, 90, 180]),
+        "Circle(n=4,center)": lambda s: fem.Circle(radius=2.0 * s, centerpoint=[0.5 * s, -1.0 * s], n=4),
+        "Rectangle": lambda s: fem.Rectangle(a=(0.2 * s, 0.5 * s), b=(2.0 * s, 1.5 * s), n=(4, 3)),
+        "Cube": lambda s: fem.Cube(a=(0.2 * s, 0.5 * s, -0.3 * s), b=(2.0 * s, 1.5 * s, 0.4 * s), n=(3, 2, 4)),
+        "Line": lambda s: fem.mesh.Line(a=0.5 * s, b=2.0 * s, n=5),
+        "Grid": lambda s: fem.Grid(np.array([0.0, 1.0, 3.0]) * s, np.array([0.5, 0.7, 2.0]) * s),
+    }
+    for lab, g in gens.items():
+        ref = g(1.0)
+        for sc in (1e-9, 1e-6, 1e-3, 1e3, 1e7):
+            try:
+                m = g(sc)
+            except Exception as ex:  # noqa
+                viol.append(dict(key=f"{key}/{lab}/s={sc}/exception", what="generator raised for a valid size", observed=repr(ex)[:160], expected="a mesh", tol=0))
+                continue
+            ntrans += 1
+            sub = f"{lab}/s={sc}"
+            if m.points.shape != ref.points.shape or not np.array_equal(m.cells, ref.cells):
+                viol.append(dict(key=f"{key}/{sub}/topology", what="mesh generated in other length units has another number of points / other cells (points merged or left duplicate)",
+                                 observed=[list(m.points.shape), list(m.cells.shape)], expected=[list(ref.points.shape), list(ref.cells.shape)], tol=0))
+                continue
+            e = np.abs(m.points / sc - ref.points).max() / np.abs(ref.points).max()
+            if e > 1e-9:
+                viol.append(dict(key=f"{key}/{sub}/points", what="points of the mesh generated with lengths x s differ from s x (unit mesh)", observed=float(e), expected=0, tol=1e-9))
+            if len(np.unique(m.points / sc, axis=0)) != m.npoints:
+                viol.append(dict(key=f"{key}/{sub}/duplicates", what="duplicate points in a generated mesh", observed=int(m.npoints - len(np.unique(m.points / sc, axis=0))), expected=0, tol=0))
+            nontrivial.append(sub)
+    return dict(viol=viol, states=len(nontrivial), transitions=ntrans, traces=len(nontrivial), nontrivial=nontrivial, outcomes=[f"scaled-generators={len(nontrivial)}"], sample=dict(case=key, generators=list(gens)),
+                digest=f"{len(nontrivial)}/{len(viol)}", capped=False)
 
 
 # ----------------------------------------------------------------------------- operations
@@ -267,6 +308,8 @@ def run(case):
     import felupe as fem
 
     warnings.simplefilter("default")
+    if case["gen"] == "scaling":
+        return run_scaling(case)
     tier, seed = case["tier"], case["seed"]
     key = case["key"]
     gen = [g for g in generators(tier, seed) if g["label"] == case["gen"]][0]
